@@ -3,6 +3,7 @@
 mod ast;
 mod sat;
 mod tables;
+mod tap;
 
 fn main() {
     // panics of the library are caught with catch_unwind and reported as observations
@@ -15,6 +16,7 @@ fn main() {
     match args[1].as_str() {
         "tables" => tables::run(&args[2..]),
         "sat" => sat::run(&args[2..]),
+        "tap" => tap::run(&args[2..]),
         other => {
             eprintln!("unknown engine {}", other);
             std::process::exit(2);
